@@ -159,6 +159,10 @@ func (fc *FnCtx) globalVar(st *State, o *types.Var) Val {
 	if isErrorType(o.Type()) {
 		return VInt{mkInt(int64(fc.eng.errCode(o)))}
 	}
+	if fc.lenient && fc.eng.isErrorSentinelPtr(o) {
+		// var ErrX = &someError{}: a non-nil sentinel like the errors.New ones
+		return VInt{mkInt(int64(fc.eng.errCode(o)))}
+	}
 	if isByteSlice(o.Type()) {
 		if content, ok := fc.eng.globalBytes(o); ok {
 			return fc.constSlice(st, key, content)
